@@ -63,7 +63,9 @@ class RefMethod:
 
 
 def _freeze(t):
-    return tuple(_freeze(x) for x in t) if isinstance(t, list) else t
+    if t == "type":  # bare type is type[object]: the same signature
+        return ("type", "O")
+    return (t[0],) + tuple(_freeze(x) for x in t[1:]) if isinstance(t, list) else t
 
 
 class RefOvld:
